@@ -21,21 +21,21 @@ def mods_for(flags):
     return ",".join(m)
 
 
-def one_run(exe, script, stack, mods, z, mode, opts, envextra):
+def one_run(exe, script, stack, mods, z, mode, opts, envextra, term=b"\n", text_override=None):
     args = [exe] + opts
     if mods:
         args.append("-f" + mods)
     if z:
         args.append("-z")
-    text = hx0(script)
+    text = text_override if text_override is not None else hx0(script)
     st = [hx0(x) for x in stack]
     env = dict(envextra)
     if mode == "stdin-pipe/stdout-pipe":
-        r = ptydrv.run_cli(args + st, stdin_data=text.encode() + b"\n", env=env)
+        r = ptydrv.run_cli(args + st, stdin_data=text.encode() + term, env=env)
     elif mode == "stdin-tty/stdout-pipe":
         r = ptydrv.run_cli(args + [text] + st, stdin_tty=True, env=env)
     elif mode == "stdin-pipe/stdout-tty":
-        r = ptydrv.run_cli(args + st, stdin_data=text.encode() + b"\n", stdout_tty=True, env=env)
+        r = ptydrv.run_cli(args + st, stdin_data=text.encode() + term, stdout_tty=True, env=env)
     elif mode == "tty/tty+DEBUG_SET_PIPE_OUT":
         env["DEBUG_SET_PIPE_OUT"] = "1"
         r = ptydrv.run_cli(args + [text] + st, stdin_tty=True, stdout_tty=True, env=env)
@@ -89,6 +89,15 @@ def make_runs(chk):
     for mode in modes[:2]:
         add(bytes([O["CAT"]]), [b"\x11" * 300, b"\x22" * 300], [], True, mode, [], {})
         add(bytes([O["CAT"]]), [b"\x11" * 260, b"\x22" * 260], [], True, mode, [], {})
+    # how the script line on stdin ends (LF, CR LF, nothing, blanks) and how it is written (hex, bracketed names, one opcode name)
+    texts = [(bytes([O["1"], O["2"], O["ADD"]]), None), (bytes([O["1"], O["2"], O["ADD"]]), "[OP_1 OP_2 OP_ADD]"), (bytes([O["1"]]), "OP_1"), (bytes([O["0"], O["VERIFY"]]), "[OP_0 OP_VERIFY]"),
+             (bytes([O["ADD"]]), "[OP_ADD]"), (bytes([O["2"], O["3"], O["EQUAL"]]), "[ OP_2  OP_3 OP_EQUAL ]")]
+    for script, text in texts:
+        for term in (b"\n", b"\r\n", b"", b"\n\n", b"\r"):
+            for mode in ("stdin-pipe/stdout-pipe", "stdin-pipe/stdout-tty"):
+                add(script, [b"\x05"] if script == bytes([O["ADD"]]) else [], STANDARD, False, mode, [], {})
+                runs[-1]["term"] = term
+                if text is not None: runs[-1]["text"] = text
     for script, stack in exc:
         for mode in modes:
             for opts in ([], ["-q"], ["--debug=sighash,signing"]):
@@ -104,7 +113,7 @@ def run(chk):
     exe = b_.exe("btcdeb")
     runs = make_runs(chk)
     def do(r):
-        res = one_run(exe, r["script"], r["stack"], mods_for(r["flags"]), r["z"], r["mode"], r["opts"], r["env"])
+        res = one_run(exe, r["script"], r["stack"], mods_for(r["flags"]), r["z"], r["mode"], r["opts"], r["env"], term=r.get("term", b"\n"), text_override=r.get("text"))
         op = {"e": "Open", "id": r["id"], "cli": True, "script": r["script"].hex(), "stack": [x.hex() for x in r["stack"]], "flags": r["flags"],
               "sigver": "BASE", "z": r["z"], "succ": "", "hist": False, "cmp": ["stack", "err", "errtext"], "weight": 0, "pretend": [],
               "mode": r["mode"], "opts": r["opts"], "env": r["env"]}
